@@ -255,6 +255,11 @@ def clampMsgs (fmin fmax : Option Nat) (scale : Option Nat) (zp : Int) (dt : DTy
   match expectedClamp fmin fmax scale zp dt with
   | none => ["clamp:expected-range-not-computable"]
   | some (emin, emax) =>
+    -- the two formulations of the reference range (`Requant.activationRange` for the standard functions, the general
+    -- formula over exact float32 arithmetic) must agree wherever both are defined
+    (match activationRangeGen fmin fmax (scale.getD bits1) zp lo hi with
+     | some g => if g = (emin, emax) then [] else [s!"clamp:spec-formulas-disagree:{g.1}:{g.2}:{emin}:{emax}"]
+     | none => []) ++
     chk "activation.min" emin (max (qmin.getD lo) lo) ++ chk "activation.max" emax (min (qmax.getD hi) hi)
 
 /-! ## every feature map stays inside the allocation of the tensor it was created from (`Spec/TensorBounds.lean`) -/
